@@ -15,7 +15,7 @@
 // serialisation of the caller's object | not ok: nothing was returned); verified = the property's own
 // predicate evaluated independently (own signature-hash computation + btcec verification against the
 // address's public key + a fresh mass-core engine per input): "-" when not ok, else 1 or the reason.
-// obs = unlocked,masterKeyZero,hashedZero,branchPriv,cachedPrivKeys of the selected wallet's manager.
+// obs = unlocked,masterKeyZero,hashedZero,branchPriv,cachedPrivKeys,saltZero of the selected wallet's manager.
 package main
 
 import (
@@ -325,7 +325,7 @@ func (s *session) obs() string {
 		}
 		return 0
 	}
-	return fmt.Sprintf("%d,%d,%d,%d,%d", b(u.Unlocked), b(u.MasterKeyZero), b(u.HashedZero), b(u.BranchPriv), u.CachedPrivKeys)
+	return fmt.Sprintf("%d,%d,%d,%d,%d,%d", b(u.Unlocked), b(u.MasterKeyZero), b(u.HashedZero), b(u.BranchPriv), u.CachedPrivKeys, b(am.VerifSaltZero()))
 }
 
 func (s *session) loadAddrs(id string) []*ainfo {
@@ -355,7 +355,9 @@ func (s *session) pickPass() (string, bool) {
 	}
 	p := []byte(s.pass)
 	var q string
-	switch r.Intn(10) {
+	switch r.Intn(11) {
+	case 10: // the passphrase followed by zero bytes (scrypt's HMAC zero-pads short keys)
+		q = s.pass + strings.Repeat("\x00", 1+r.Intn(3))
 	case 0: // one character changed
 		k := r.Intn(len(p))
 		c := append([]byte{}, p...)
@@ -454,7 +456,8 @@ func (s *session) randomOp() {
 	case k < 92:
 		// new public passphrase: the candidate when it is a legal passphrase, else a fresh legal one
 		np := pass
-		if !keystore.ValidatePassphrase([]byte(np)) || np == s.pubpass {
+		// (not another wallet's private passphrase: ChangePubPassphrase checks every manager)
+		if !keystore.ValidatePassphrase([]byte(np)) || np == s.pubpass || (np != s.pass && strings.HasPrefix(np, "passW")) {
 			np = "newPub" + fmt.Sprint(r.Intn(100000)) + "@y"
 		}
 		old := s.pubpass
@@ -501,7 +504,7 @@ func (s *session) signCase() {
 	if r.Chance(30) {
 		lock = uint64(1 + r.Intn(1000))
 	}
-	for len(ins) < nin {
+	for tries := 0; len(ins) < nin && tries < 200; tries++ {
 		if !clean && r.Chance(12) {
 			// an outpoint the wallet has never seen
 			var hsh wire.Hash
@@ -511,9 +514,6 @@ func (s *session) signCase() {
 		}
 		c := s.coins[r.Intn(len(s.coins))]
 		if used[c.op] {
-			if len(used) >= len(s.coins) {
-				break
-			}
 			continue
 		}
 		if clean && (c.wallet != 0 || c.spent) {
